@@ -419,3 +419,92 @@ Section Chain.
   Definition denoms_of (xs : xstate) (cr : string) : list denom :=
     map snd (filter (fun p => String.eqb (fst p) cr) (index xs)).
 End Chain.
+
+(** ---- third round: whole transactions through the signature-authorisation ante decorator ----
+
+    baseapp.runTx: ValidateBasic of every message, then the ante chain — of which
+    x/paloma VerifyAuthorisedSignatureDecorator is the ONLY place that ties a message's
+    Metadata.Creator (on which the msg server authorises) to the accounts whose signatures the SDK
+    verified (Metadata.Signers, cosmos.msg.v1.signer = "metadata") — then the handlers one after the
+    other on a cache context committed only when all succeed.
+
+    A message of a transaction: the tokenfactory message and its Metadata.Signers as written.
+    Fee grants (x/feegrant, another module) are given with the transaction: (granter, grantee). *)
+Definition tmsg := (msg * list string)%type.
+Definition grants := list (acct * acct).
+
+Inductive top :=
+| TOp (o : xop)
+| TTx (g : grants) (tx : list tmsg).
+
+Section Tx.
+  Variable c : cfg.
+  Variable str_of : acct -> string.
+  Variable authority : string.
+
+  (** libmeta.ValidateBasic's part about the signers, then the message's own ValidateBasic *)
+  Definition tvalid (xs : xstate) (t : tmsg) : bool :=
+    negb (match snd t with [] => true | _ => false end)
+    && forallb (valid_addr c) (snd t) && validate_basic (cfg_at c xs) (fst t).
+
+  (** `v.String() == creator` for some signer v *)
+  Definition signed_by_creator (t : tmsg) : bool :=
+    existsb (fun sg => match addr_of c sg with
+                       | Some a => String.eqb (str_of a) (sender (fst t))
+                       | None => false end) (snd t).
+
+  (** some signer holds a fee allowance granted by the creator *)
+  Definition fee_granted (g : grants) (t : tmsg) : bool :=
+    match addr_of c (sender (fst t)) with
+    | None => false
+    | Some gr =>
+      existsb (fun sg => match addr_of c sg with
+                         | Some ge => existsb (fun p => (fst p =? gr) && (snd p =? ge)) g
+                         | None => false end) (snd t)
+    end.
+
+  Definition ante_msg (g : grants) (t : tmsg) : bool := signed_by_creator t || fee_granted g t.
+
+  (** the decorator's loop: EVERY message of the transaction *)
+  Definition ante_tx (g : grants) (tx : list tmsg) : bool := forallb (ante_msg g) tx.
+
+  (** one delivered tokenfactory message on the extended state (= [xstep_out (XBase (OMsg m))]) *)
+  Definition msg_step (xs : xstate) (m : msg) : xstate * res string :=
+    xstep_out c str_of authority xs (XBase (OMsg m)).
+
+  (** runMsgs: stop at the first failure *)
+  Fixpoint run_msgs (xs : xstate) (tx : list tmsg) : res xstate :=
+    match tx with
+    | [] => Ok xs
+    | t :: r =>
+      match msg_step xs (fst t) with
+      | (xs', Ok _) => run_msgs xs' r
+      | (_, Err e) => Err e
+      end
+    end.
+
+  Definition deliver_tx (xs : xstate) (g : grants) (tx : list tmsg) : xstate * res string :=
+    if negb (forallb (tvalid xs) tx) then (xs, Err EValidate)
+    else if negb (ante_tx g tx) then (xs, Err EAnte)
+    else match run_msgs xs tx with
+         | Ok xs' => (xs', Ok EmptyString)
+         | Err e => (xs, Err e)
+         end.
+
+  Definition tstep_out (xs : xstate) (t : top) : xstate * res string :=
+    match t with
+    | TOp o => xstep_out c str_of authority xs o
+    | TTx g tx => deliver_tx xs g tx
+    end.
+  Definition tstep (xs : xstate) (t : top) : xstate := fst (tstep_out xs t).
+  Definition trun (ts : list top) (xs : xstate) : xstate := fold_left tstep ts xs.
+
+  Definition thonest (t : top) : Prop := match t with TOp o => honest o | TTx _ _ => True end.
+
+  (** the creator of a message authorised the transaction: one of the accounts whose signature the
+      SDK verified for this message IS the creator's account, or holds a fee grant from it *)
+  Definition creator_authorised (g : grants) (t : tmsg) : Prop :=
+    exists sg a, In sg (snd t) /\ addr_of c sg = Some a /\
+      (addr_of c (sender (fst t)) = Some a \/
+       exists gr, addr_of c (sender (fst t)) = Some gr /\ In (gr, a) g).
+End Tx.
